@@ -74,6 +74,11 @@ def is_facebook_post_url(url):
     )
 
 
+def is_handle_segment(segment):
+    # NOTE: an empty segment ("/groups//posts/1") or a dot segment is no handle
+    return segment not in ("", ".", "..")
+
+
 def is_facebook_link(url):
     try:
         splitted = safe_urlsplit(url)
@@ -415,11 +420,17 @@ def parse_facebook_url(url, allow_relative_urls=False):
 
             group_id_or_handle = parts[1]
 
+            if not is_handle_segment(group_id_or_handle):
+                return None
+
             if is_facebook_id(group_id_or_handle):
                 return FacebookPost(parts[3], group_id=group_id_or_handle)
             return FacebookPost(parts[3], group_handle=group_id_or_handle)
 
         parent_id_or_handle = parts[0]
+
+        if not is_handle_segment(parent_id_or_handle):
+            return None
 
         if is_facebook_id(parent_id_or_handle):
             return FacebookPost(parts[2], parent_id=parent_id_or_handle)
@@ -443,6 +454,9 @@ def parse_facebook_url(url, allow_relative_urls=False):
         parts = pathsplit(splitted.path)
 
         if len(parts) < 2:
+            return None
+
+        if not is_handle_segment(parts[1]):
             return None
 
         if "/permalink/" in splitted.path:
